@@ -243,6 +243,7 @@ func (fr *Frame) writeVar(s *State, o *types.Var, v *Val) {
 		if !ok {
 			ref = s.alloc()
 			s.boxed[o] = ref
+			fr.initObject(s, o.Type(), ref)
 		}
 		hn, hs := fr.eng.ptrHeap(o.Type())
 		s.setHeap(hn, hs, fmt.Sprintf("(store %s %s %s)", s.heap(hn, hs), ref, v.S))
@@ -254,7 +255,7 @@ func (fr *Frame) writeVar(s *State, o *types.Var, v *Val) {
 		return
 	}
 	if v.Fn == nil && len(v.S) > 48 {
-		v = &Val{T: v.T, S: fr.vc.define(o.Name(), fr.eng.sortOf(o.Type()), v.S), Const: v.Const}
+		v = &Val{T: v.T, S: fr.vc.define(o.Name(), fr.eng.sortOf(o.Type()), v.S), Const: v.Const, Dyn: v.Dyn}
 	}
 	s.vars[o] = v
 }
@@ -381,6 +382,7 @@ func (fr *Frame) addrOf(s *State, e ast.Expr) *Val {
 	case *ast.CompositeLit:
 		v := fr.evalCompositeLit(s, x)
 		ref := s.alloc()
+		fr.initObject(s, v.T, ref)
 		hn, hs := fr.eng.ptrHeap(v.T)
 		s.setHeap(hn, hs, fmt.Sprintf("(store %s %s %s)", s.heap(hn, hs), ref, v.S))
 		return &Val{T: types.NewPointer(v.T), S: ref}
@@ -399,6 +401,7 @@ func (fr *Frame) addrOf(s *State, e ast.Expr) *Val {
 					}
 					ref = s.alloc()
 					s.boxed[o] = ref
+					fr.initObject(s, o.Type(), ref)
 					hn, hs := fr.eng.ptrHeap(o.Type())
 					s.setHeap(hn, hs, fmt.Sprintf("(store %s %s %s)", s.heap(hn, hs), ref, cur.S))
 				}
